@@ -105,8 +105,8 @@ Lemma site_good_parts lg k s :
   /\ match s_lits s with [] => false | [_] => true | _ => negb (single_lit_ctx (s_ctx s)) end = true
   /\ forallb (lit_ok lg) (s_lits s) = true.
 Proof.
-  unfold site_good. intros H. apply andb_prop in H. destruct H as [H H4]. apply andb_prop in H. destruct H as [H H3].
-  apply andb_prop in H. destruct H as [H1 H2]. repeat split; assumption.
+  unfold site_good. intros H. apply andb_prop in H. destruct H as [H H4]. apply andb_prop in H. destruct H as [H _].
+  apply andb_prop in H. destruct H as [H H3]. apply andb_prop in H. destruct H as [H1 H2]. repeat split; assumption.
 Qed.
 
 Lemma py_site_plain_parts q s :
